@@ -886,10 +886,17 @@ def run(ctx):
   # (W) systematic weights: ties, near-ties, zeros, one dominant
   for s, expr, pop in weight_cases(ctx, rng):
     add('weights/' + prim_names(expr)[0].split('.')[-1], s, expr, pop)
+  # (A2) algebra: composition operator x inner selection class x population size (also judged by the independent interpreter below)
+  alg_jobs = algebra_jobs(ctx, rng, full=ctx.thorough or bool(src_changed))
+  for j in (alg_jobs if ctx.thorough else rng.sample(alg_jobs, min(len(alg_jobs), 700))):
+    add('algebra/' + j['label'].split('(')[0], j['spec'], j['expr'], j['pop'], j['seed'])
   # (C) oracle only: float ranges / values off the model's 1/64 grid
   for s, expr, pop in nondyadic_cases(rng, ctx.scale(60, 600)):
     add('oracle-only/nondyadic-floats', s, expr, pop)
   ctx.log('generated %d cases' % len(cases))
+  # the independent algebra oracle runs first (it is the first thing to look at when the source pins fired)
+  ctx.extra['algebra_sweep'] = dict(cases=len(alg_jobs), full=bool(ctx.thorough or src_changed), hits=algebra_sweep(ctx, alg_jobs),
+                                    what='composition operator x inner selection (fewer / exactly len(pop) / more items; duplicates; non-members) x population size 0..8 against an independent interpreter of the documented meaning')
   for i, c in enumerate(cases): c['det'] = (i % 3 == 0)
   import os, time
   nproc = min(12, os.cpu_count() or 1)
@@ -1290,6 +1297,143 @@ def weight_cases(ctx, rng):
     out.append((W_SPEC, P([0, sl]), pop))
   return out
 
+# ------------------------------------------------------------------------------------------------
+# systematic algebra sweep: every composition operator x inner selections returning fewer / exactly len(pop) / more items
+# than the population, with and without duplicates, members and freshly created non-members x population sizes 0..8,
+# against an INDEPENDENT interpreter of the documented meaning (Operation docstring) and, as ordinary cases, against the model
+ALG_CLASS = {2: 'Pipeline', 3: 'Union', 4: 'Intersection', 5: 'Concatenation', 6: 'Difference', 7: 'SymmetricDifference', 8: 'Repeat', 9: 'Power',
+             10: 'Slice', 11: 'Slice', 12: 'Inversion', 13: 'Choice', 18: 'UntilChange'}
+
+def alg_inner(n):
+  h = n // 2
+  out = [('fewer/first', P([0, [5, [0, h]]])), ('fewer/top', P([0, [3, [0, max(n - 1, 0)], 0]])), ('fewer/random', P([0, [0, [0, h], 0]])),
+         ('exact/all', P([0, [5, [2]]])),
+         ('exact/dups-concat', [5, P([0, [3, [0, n - h], 0]]), P([0, [5, [0, h]]])]),              # Top(n-h) + First(h): n items, members repeated
+         ('exact/random-repl', P([0, [0, [2], 1]])), ('exact/proportional', P([0, [2, [2], 2]])),
+         ('exact/fresh', P([1, [0, NW_ALL]])),                                                       # n new objects
+         ('exact/mixed', [5, P([0, [5, [0, max(n - 1, 0)]]]), [2, P([0, [6, [0, 1]]]), P([1, [0, NW_ALL]])]]),   # First(n-1) + (Last(1) >> Uniform): one non-member
+         ('more/dups', [8, 2, [1]]), ('more/plus-one', [5, [1], P([0, [3, [0, 1], 0]])]), ('more/fresh', [8, 2, P([1, [0, NW_ALL]])]),
+         ('empty', P([0, [5, [0, 0]]]))]
+  if n % 2 == 0: out.append(('exact/dups-repeat', [8, 2, P([0, [3, [0, h], 0]])]))                  # Top(n/2) * 2
+  return out
+
+ALG_UNARY = [('invert', lambda X: [12, X]), ('repeat2', lambda X: [8, 2, X]), ('power2', lambda X: [9, 2, X]), ('slice-1', lambda X: [10, -1, X]),
+             ('slice0', lambda X: [10, 0, X]), ('slice::2', lambda X: [11, [], [], 2, X]), ('slice1:-1', lambda X: [11, [1], [-1], 1, X]),
+             ('with_prob1', lambda X: [13, [4, 2], X]), ('with_prob0', lambda X: [13, [0, 2], X]), ('until2', lambda X: [18, 2, X]),
+             ('for_each', lambda X: [2, [2, [2, [1], P([3, 2])], [16, X]], [17, []]])]
+ALG_BINARY = [('pipe', 2), ('union', 3), ('inter', 4), ('concat', 5), ('diff', 6), ('symdiff', 7)]
+ALG_Y = ['fewer/first', 'exact/dups-concat', 'exact/fresh', 'more/dups', 'exact/random-repl']
+
+def alg_population(rng, n):
+  return [['d', i, [('c', [(rng.randrange(4), [])])], float(rng.choice(WEIGHT_ALPHABET[1:]))] for i in range(n)]
+
+def algebra_jobs(ctx, rng, full):
+  jobs = []
+  for n in range(0, 9):
+    inner = alg_inner(n)
+    ys = [e for l, e in inner if l in ALG_Y]
+    for lx, X in inner:
+      for lu, f in ALG_UNARY:
+        jobs.append(dict(kind='algebra', label='%s(%s) n=%d' % (lu, lx, n), spec=W_SPEC, expr=f(X), pop=alg_population(rng, n), seed=rng.randint(0, 9999)))
+      for lb, t in ALG_BINARY:
+        for Y in (ys if full else [rng.choice(ys)]):
+          jobs.append(dict(kind='algebra', label='%s(%s, …) n=%d' % (lb, lx, n), spec=W_SPEC, expr=[t, X, Y], pop=alg_population(rng, n), seed=rng.randint(0, 9999)))
+  return jobs
+
+class _Skip(Exception):
+  pass
+
+def doc_eval(expr, pop, seed):
+  """Independent interpreter of the documented meaning of the composition operators (identity based), over the real
+  primitives built with the seeds Builder would give them."""
+  import itertools
+  expr = json.loads(json.dumps(expr))          # no sub-expression object is shared: leaves are keyed by node
+  b = Builder(seeds=itertools.count(seed))
+  leaves = {}
+  def prepare(x):       # the construction order of Builder.build
+    t = x[0]
+    if t == 0: leaves[id(x)] = b.prim(x[1]); return
+    for y in kids(x): prepare(y)
+    if t in (13, 14): b.seed()
+  prepare(expr)
+  ids = lambda l: set(id(o) for o in l)
+  def ev(x, inp):
+    t = x[0]
+    if t == 0: return list(leaves[id(x)](inp))
+    if t == 1: return list(inp)
+    if t == 19: return ev(x[1], inp)
+    if t == 2: return ev(x[2], ev(x[1], inp))
+    if t in (3, 4, 5, 6, 7):
+      A, B = ev(x[1], inp), ev(x[2], inp)
+      if t == 5: return A + B
+      if t == 6: return [o for o in A if id(o) not in ids(B)]
+      if t == 7: return [o for o in A + B if (id(o) in ids(A)) != (id(o) in ids(B))]
+      seen, out = set(), []
+      for o in (A + B if t == 3 else [o for o in A if id(o) in ids(B)]):
+        if id(o) not in seen: seen.add(id(o)); out.append(o)
+      return out
+    if t == 8: return [o for _ in range(max(x[1], 0)) for o in ev(x[2], inp)]
+    if t == 9:
+      for _ in range(max(x[1], 0)): inp = ev(x[2], inp)
+      return list(inp)
+    if t == 10:
+      A = ev(x[2], inp)
+      if not (-len(A) <= x[1] < len(A)): raise _Skip()
+      r = A[x[1]]; return list(r) if isinstance(r, list) else [r]
+    if t == 11: return ev(x[4], inp)[slice(x[1][0] if x[1] else None, x[2][0] if x[2] else None, max(x[3], 1))]
+    if t == 12:
+      sel = ids(ev(x[1], inp)); return [o for o in inp if id(o) not in sel]
+    if t == 13:
+      if x[1][0] not in (0, 2 ** x[1][1]): raise _Skip()
+      return ev(x[2], inp) if x[1][0] else list(inp)
+    if t == 16: return [ev(x[1], c) for c in inp]
+    if t == 17:
+      def fl(l):
+        return [y for o in l for y in (fl(o) if isinstance(o, list) else [o])]
+      return fl(inp)
+    if t == 18:
+      for _ in range(x[1]):
+        out = ev(x[2], inp)
+        if out != inp: break
+      return out
+    raise _Skip()
+  return ev(expr, pop)
+
+def algebra_check(j):
+  """Hits of one algebra case: the composite built with the real overloads against the documented meaning."""
+  import itertools
+  try:
+    spec, _ = pg_spec(j['spec'])
+    inputs, objs = build_population(j['spec'], spec, j['pop'])
+    ident = {id(o): k for k, o in objs.items()}
+    def canon(l):
+      return [canon(o) if isinstance(o, list) else (('in', ident[id(o)]) if id(o) in ident else ('new', repr(G.dna_to_tree(o)))) for o in l]
+    try:
+      want = canon(doc_eval(j['expr'], inputs, j['seed']))
+    except Exception:   # pylint: disable=broad-except
+      return []         # an operand refuses this population (or the shape is outside the interpreter): the ordinary oracle judges it
+    try:
+      got = canon(Builder(seeds=itertools.count(j['seed'])).build(j['expr'])(inputs))
+    except Exception as e:   # pylint: disable=broad-except
+      return [('C14/composition/base.%s/raises-%s' % (ALG_CLASS.get(j['expr'][0], 'ElementWise'), type(e).__name__),
+               '%s: the composite raises %s (%s) where its operands and the documented meaning give %d items' % (j.get('label', ''), type(e).__name__, str(e)[:100], len(want)))]
+    if got != want:
+      return [('C14/composition/base.%s/differs-from-documented-meaning' % ALG_CLASS.get(j['expr'][0], 'ElementWise'),
+               '%s on a population of %d: the composite returns %s, the documented meaning over the same operands is %s'
+               % (j.get('label', ''), len(j['pop']), str(got)[:160], str(want)[:160]))]
+    return []
+  except Exception as e:   # pylint: disable=broad-except
+    return [('C14/raises/algebra/%s' % msg_key(e), 'the algebra case raises %s: %s' % (type(e).__name__, str(e)[:160]))]
+
+def algebra_sweep(ctx, jobs):
+  import os
+  n_hits = 0
+  for j, hits in zip(jobs, run_jobs(algebra_check, jobs, min(12, os.cpu_count() or 1))):
+    for sig, what in hits:
+      n_hits += 1
+      ctx.hit(sig, what, dict(kind='algebra', label=j['label'], spec=j['spec'], expr=j['expr'], pop=j['pop'], seed=j['seed']))
+  return n_hits
+
 def process_case(c):
   """One case in a worker process: run the implementation with the recorder, evaluate the oracle.  Never raises:
   whatever the library does on an input inside the property's quantifier is an outcome / an oracle hit with the case as replay."""
@@ -1320,6 +1464,10 @@ def run_jobs(fn, jobs, nproc):
 
 def replay(ctx, rp):
   c = rp['case']
+  if c.get('kind') == 'algebra':
+    hits = algebra_check(c)
+    for h in hits: print('  still fails:', h)
+    return not hits
   if c.get('kind') == 'partition':
     pg, base, M, R, S, W = lib()
     try:
